@@ -1140,22 +1140,28 @@ struct Machine {
         // a malformed point sequence must not become a live grid
         std::vector<R> bad = gridPts;
         const size_t pos = g.below(bad.size() - 1);
-        const int defect = (int)g.below(3);
+        const int defect = (int)g.below(ST<T>::exact ? 3 : 4);
         if (defect == 0)
           std::swap(bad[pos], bad[pos + 1]);  // descent
         else if (defect == 1)
           bad[pos + 1] = bad[pos];  // duplicate
-        else
+        else if (defect == 2)
           bad.resize(g.below(2));  // too short
+        std::vector<T> badT = mkVec<T>(bad);
+        if constexpr (!ST<T>::exact)
+          if (defect == 3) badT[pos + g.below(2)] = (T)NAN;  // not ordered
         std::optional<Grid<T>> made;
-        expectAny([&] { made.emplace(mkVec<T>(bad)); }, "C11");
+        expectAny([&] { made.emplace(badT); }, "C11");
         if (made) {
           bool inc = made->size() >= 2;
           for (size_t i = 0; inc && i + 1 < made->size(); i++)
             if (!((*made)[i] < (*made)[i + 1])) inc = false;
           if (!inc)
             viol("C10", "grid-invariant/fail-grid-ctor",
-                 "a live grid holds the points " + gridStr(bad));
+                 std::string("a live grid holds points that are not strictly "
+                             "increasing (defect kind ") +
+                     std::to_string(defect) + " at position " +
+                     std::to_string(pos) + " of " + gridStr(gridPts) + ")");
         }
         break;
       }
